@@ -18,6 +18,8 @@ fn gen_cfg() -> GenCfg {
         (K::Write, 20),
         // a write hit by a transient storage fault and retried by the caller, then flushed like any other
         (K::WriteRetry, 6),
+        // a flush hit by a transient fault and repeated: the repeated flush's success is a flush point like any other
+        (K::FlushRetry, 4),
         (K::Seek, 5),
         (K::Flush, 10),
         (K::CloseFile, 8),
